@@ -64,17 +64,17 @@ def _dump(v, out):
     k = v[0]
     if k in "ntfd":
         out.append(k)
-    elif k in "il":
+    elif k in "iluU":
         out.append(k + str(v[1]))
     elif k == "s":
         out.append("s" + hx(v[1]))
-    elif k == "[":
-        out.append("[")
+    elif k in "[<":
+        out.append(k)
         for n, e in enumerate(v[1]):
             if n:
                 out.append(",")
             _dump(e, out)
-        out.append("]")
+        out.append("]" if k == "[" else ">")
     else:
         out.append("{")
         for n, (key, e) in enumerate(v[1]):
@@ -92,9 +92,14 @@ class DumpError(Exception):
 _DEC = re.compile(r"-?(?:0|[1-9][0-9]*)")
 
 
-def parse_dump(tok, allow_d=True):
+U32 = (0, 2 ** 32 - 1)
+U64 = (0, 2 ** 64 - 1)
+
+
+def parse_dump(tok, allow_d=True, ext=False):
     """strict reader of the dump grammar; DumpError('range') for a canonical number outside its type,
-    DumpError('syntax') otherwise.  Repeated keys: later value replaces, first position kept."""
+    DumpError('syntax') otherwise.  Repeated keys: later value replaces, first position kept.
+    ext (tostr only): u<dec> uint, U<dec> uint64, <V,...> Array<Variant>."""
     pos = [0]
     n = len(tok)
 
@@ -116,6 +121,35 @@ def parse_dump(tok, allow_d=True):
             if not allow_d:
                 raise DumpError("syntax")
             return ("d",)
+        if c in "uU<" and not ext:
+            raise DumpError("syntax")
+        if c in "uU":
+            m = _DEC.match(tok, pos[0])
+            if not m or m.group(0).startswith("-"):
+                raise DumpError("syntax")
+            pos[0] = m.end()
+            if pos[0] < n and tok[pos[0]].isdigit():
+                raise DumpError("syntax")
+            if len(m.group(0)) > 20:
+                raise DumpError("range")
+            x = int(m.group(0))
+            if x > (U32 if c == "u" else U64)[1]:
+                raise DumpError("range")
+            return (c, x)
+        if c == "<":
+            items = []
+            if pos[0] < n and tok[pos[0]] == ">":
+                pos[0] += 1
+                return ("<", items)
+            while True:
+                items.append(val())
+                if pos[0] < n and tok[pos[0]] == ",":
+                    pos[0] += 1
+                    continue
+                if pos[0] < n and tok[pos[0]] == ">":
+                    pos[0] += 1
+                    return ("<", items)
+                raise DumpError("syntax")
         if c in "il":
             m = _DEC.match(tok, pos[0])
             if not m:
@@ -176,7 +210,7 @@ def tree_strings(v):
     k = v[0]
     if k == "s":
         yield v[1]
-    elif k == "[":
+    elif k in "[<":
         for e in v[1]:
             yield from tree_strings(e)
     elif k == "{":
@@ -186,14 +220,21 @@ def tree_strings(v):
 
 
 def norm(v):
-    """what parse(toString(v)) is: an int64 that fits 32 bits comes back as int"""
+    """what parse(toString(v)) is: an int64 that fits 32 bits comes back as int; an unsigned value comes back as the
+    signed kind that holds it (None beyond int64: no claim), an Array as a list"""
     k = v[0]
-    if k == "l" and I32[0] <= v[1] <= I32[1]:
-        return ("i", v[1])
-    if k == "[":
-        return ("[", [norm(e) for e in v[1]])
+    if k in "luU":
+        if I32[0] <= v[1] <= I32[1]:
+            return ("i", v[1])
+        if v[1] > I64[1]:
+            return None
+        return ("l", v[1])
+    if k in "[<":
+        items = [norm(e) for e in v[1]]
+        return None if any(e is None for e in items) else ("[", items)
     if k == "{":
-        return ("{", [(key, norm(e)) for key, e in v[1]])
+        items = [(key, norm(e)) for key, e in v[1]]
+        return None if any(e is None for key, e in items) else ("{", items)
     return v
 
 
@@ -367,11 +408,11 @@ def _tostr(v, ind, out):
         out.append(b"true")
     elif k == "f":
         out.append(b"false")
-    elif k in "il":
+    elif k in "iluU":
         out.append(str(v[1]).encode())
     elif k == "s":
         out.append(ref_escape(v[1]))
-    elif k == "[":
+    elif k in "[<":
         if not v[1]:
             out.append(b"[]")
             return
@@ -422,8 +463,16 @@ def ref_line(line, impl):
         if impl is not None and _HEXTOK.fullmatch(impl) and eols(unhx(impl)) != eols(text):
             return "!stripComments changed the sequence of line breaks; expected " + hx(exp)
         return "=" + hx(exp)
+    if op == "tostr" and arg.startswith("D"):
+        if not _HEXTOK.fullmatch(arg[1:]):
+            return "=bad-op"
+        try:
+            x = float(unhx(arg[1:]).decode("ascii"))
+        except (ValueError, UnicodeDecodeError):
+            return "*"
+        return "=dbl" if x == x and abs(x) != float("inf") else "*"      # "%f" of a finite double: digits '.' six digits
     try:
-        v = parse_dump(arg, allow_d=False)
+        v = parse_dump(arg, allow_d=False, ext=(op == "tostr"))
     except DumpError as e:
         return "=bad-op" if e.args[0] == "range" else "*"
     if any(0 in s for s in tree_strings(v)):
@@ -440,7 +489,7 @@ def ref_line(line, impl):
             strict = False
         if strict:
             back = py_parse(got)
-            if back != norm(v):
+            if norm(v) is not None and back != norm(v):
                 return "!toString output is not the JSON text of the value (python json.loads gives " + \
                        (dump(back) if back is not None else "an error") + "); expected " + hx(exp)
     return "=" + hx(exp)
@@ -759,6 +808,31 @@ def gen_tree(rng, depth, nul=False):
     return ("{", list(d.items()))
 
 
+def gen_tree_ext(rng, depth):
+    """trees for tostr only: the remaining Variant kinds (uint, uint64, Array<Variant>) mixed into ordinary trees"""
+    k = rng.random()
+    if depth <= 0:
+        k = k * 0.6
+    if k < 0.2:
+        return ("u", rng.choice([0, 1, U32[1], I32[1], I32[1] + 1, rng.randrange(U32[1] + 1)]))
+    if k < 0.4:
+        return ("U", rng.choice([0, 7, U64[1], I64[1], I64[1] + 1, U32[1] + 1, rng.randrange(U64[1] + 1)]))
+    if k < 0.6:
+        return gen_tree(rng, 0)
+    if k < 0.8:
+        return ("<", [gen_tree_ext(rng, depth - 1) for _ in range(rng.choice([0, 1, 2, 3]))])
+    if k < 0.9:
+        return ("[", [gen_tree_ext(rng, depth - 1) for _ in range(rng.choice([0, 1, 2]))])
+    d = {}
+    for _ in range(rng.choice([1, 2])):
+        d[gen_bytes(rng)] = gen_tree_ext(rng, depth - 1)
+    return ("{", list(d.items()))
+
+
+DOUBLE_TEXTS = [b"1.5", b"-0.0", b"0", b"3.25e+10", b"1e300", b"-1e-300", b"123456789.123456789", b"0.0000001", b"-2.5E3", b"1e22",
+                b"9007199254740993", b"", b"x", b"1e308", b"-1e308"]     # finite values only: the model does not know inf/nan
+
+
 def nest_list(n, inner="n"):
     return "[" * n + inner + "]" * n
 
@@ -776,7 +850,9 @@ def deep_histories():
     ]
 
 
-BAD_OPS = ["tostr i2147483648", "rt i-2147483649", "tostr l9223372036854775808", "rt l-9223372036854775809", "tostr d",
+BAD_OPS = ["rt u1", "rt <i1>", "rt [U5]", "tostr u4294967296", "tostr U18446744073709551616", "tostr u01", "tostr u-1", "tostr <i1",
+           "tostr <i1]", "tostr D", "tostr D3", "rt D31", "tostr [D31]",
+           "tostr i2147483648", "rt i-2147483649", "tostr l9223372036854775808", "rt l-9223372036854775809", "tostr d",
            "rt [d]", "frob 00", "parse", "parse 00 00", "rt [i1,,i2]", "tostr {61:}", "tostr [i1", "rt s6", "tostr x", "rt {61}"]
 
 
@@ -868,12 +944,18 @@ def histories_for(ctx):
         d = dump(gen_tree(rng, rng.choice([0, 1, 2, 3]), nul=True))
         lines.append("tostr " + d)
         lines.append("rt " + d)
+    for _ in range(600 if quick else 20000):
+        lines.append("tostr " + dump(gen_tree_ext(rng, rng.choice([0, 1, 2, 3]))))
+    lines += ["tostr D" + hx(t) for t in DOUBLE_TEXTS]
+    lines += ["tostr D" + hx(("%s%d.%d" % (rng.choice(["", "-"]), rng.randrange(10 ** rng.randrange(1, 30)), rng.randrange(1000))).encode())
+              for _ in range(100 if quick else 3000)]
     lines += BAD_OPS
     counts["trees"] = len(lines)
     tree_h = group([l for l in lines if len(l) < MAXLINE], 4)
     deep = deep_histories()
     counts["deep"] = sum(len(h) for h in deep)
 
+    ctx.cov["branch_hits"] = branch_hits(deep + ex_h + doc_h + mut_h + tree_h)
     ctx.cov["rule"] = (
         f"corpus ({counts['corpus']} files) + {counts['corpus_seed']} built-in histories of the repaired defects (one process each); exhaustive: {scope} "
         f"({counts['exhaustive']} op lines); {ndocs} generated documents (75% valid JSON with every escape kind, surrogate pairs, raw UTF-8, "
@@ -888,6 +970,54 @@ def histories_for(ctx):
     ctx.cov["samples"] = [" ; ".join(x[:160] for x in h[:3]) for h in
                           (doc_h[:2] + mut_h[-2:] + tree_h[:2] + ex_h[len(ex_h) // 2: len(ex_h) // 2 + 1] + deep[3:4])]
     return deep + ex_h + doc_h + mut_h + tree_h
+
+
+_BRANCHES = [
+    ("string: two-character escape", re.compile(rb'\\["\\/bfnrt]')),
+    ("string: \\u BMP escape", re.compile(rb"\\u(?![dD][89a-fA-F])[0-9a-fA-F]{4}")),
+    ("string: surrogate pair", re.compile(rb"\\u[dD][89abAB][0-9a-fA-F]{2}\\u[dD][c-fC-F][0-9a-fA-F]{2}")),
+    ("string: lone low surrogate", re.compile(rb"(?<![0-9a-fA-F]{4})\\u[dD][c-fC-F][0-9a-fA-F]{2}")),
+    ("string: high surrogate without low (rejected)", re.compile(rb"\\u[dD][89abAB][0-9a-fA-F]{2}(?!\\u[dD][c-fC-F])")),
+    ("string: \\u with a non-hex digit", re.compile(rb"\\u[0-9a-fA-F]{0,3}[^0-9a-fA-F]")),
+    ("string: unknown escape", re.compile(rb'\\[^"\\/bfnrtu]')),
+    ("string: raw CR/LF/control character", re.compile(rb'"[^"\\]*[\x01-\x1f]')),
+    ("number: with decimal point (double)", re.compile(rb"[0-9]\.[0-9]")),
+    ("number: exponent without decimal point", re.compile(rb"(?<![.0-9a-zA-Z])-?[0-9]+[eE][-+]?[0-9]")),
+    ("number: 10 or 11 digits (int / int64 border)", re.compile(rb"(?<![0-9.])[0-9]{10,11}(?![0-9.])")),
+    ("number: 19 or more digits (int64 border / saturation)", re.compile(rb"(?<![0-9.])[0-9]{19,}(?![0-9.])")),
+    ("number: leading zero / malformed", re.compile(rb"(?<![0-9.eE])0[0-9]|--|[0-9]-[0-9]|[0-9]\.[0-9]+\.")),
+    ("white space: vertical tab / form feed", re.compile(rb"[\x0b\x0c]")),
+    ("white space: CR LF / lone CR", re.compile(rb"\r")),
+    ("trailing comma", re.compile(rb",\s*[\]}]")),
+    ("literal true/false/null", re.compile(rb"true|false|null")),
+    ("nested container", re.compile(rb"[\[{]\s*[\[{]")),
+]
+
+
+def branch_hits(histories):
+    """how many parse lines of this run contain the construct that drives a branch of the tokenizer / parser (a model branch
+    the run never reaches would be a hole in the tie); plus the kinds of Variant serialised"""
+    hits = {name: 0 for name, _ in _BRANCHES}
+    kinds = {k: 0 for k in "ntfilsuU[<{D"}
+    dup = 0
+    for h in histories:
+        for l in h:
+            op, _, arg = l.partition(" ")
+            if op == "parse" and _HEXTOK.fullmatch(arg):
+                t = unhx(arg)
+                for name, rx in _BRANCHES:
+                    if rx.search(t):
+                        hits[name] += 1
+                keys = re.findall(rb'"([^"\\]*)"\s*:', t)
+                if len(keys) != len(set(keys)):
+                    dup += 1
+            elif op in ("tostr", "rt"):
+                for k in kinds:
+                    if k in arg:
+                        kinds[k] += 1
+    hits["object with a repeated member name"] = dup
+    hits["tostr/rt lines by Variant kind in the dump"] = kinds
+    return hits
 
 
 def nontrivial(h, out):
